@@ -13,11 +13,13 @@ import (
 func init() {
 	mon.Register(&mon.Prop{
 		ID: "C17", Level: "exploration",
-		Rule: "sequence clause: every order 1..N completely (all 4^n windows counted in a bitset); barcode clause: lengths n..60 x orders 2..8 x 0..5 bans of length 2..8 x 0..3 filter predicates, random and adversarial (ban list ordered so that skipping a later ban slides the window onto an earlier one, onto the reverse complement of one, or a filter skip slides it onto a ban); non-trivial = a call with at least one ban or filter that returned at least one barcode, or a sequence-clause order; distinct by hash of the call arguments",
+		Rule:        "sequence clause: every order 1..N completely (all 4^n windows counted in a bitset); barcode clause: lengths n..60 x orders 2..8 x 0..5 bans of length 2..8 x 0..3 filter predicates, random and adversarial (ban list ordered so that skipping a later ban slides the window onto an earlier one, onto the reverse complement of one, or a filter skip slides it onto a ban); non-trivial = a call with at least one ban or filter that returned at least one barcode, or a sequence-clause order; distinct by hash of the call arguments",
 		Assumptions: []string{"checks are written directly from the definitions (own reverse complement); the de Bruijn sequence used as reference for the substring clause is poly's own output, validated by the sequence clause in the same run"},
 		Shards:      tierShards(8, 16), WatchdogSec: tierSecs(600, 3600),
-		MinStats: func(string) map[string]int64 { return map[string]int64{"barcodes_checked": 1000, "adversarial_lists": 50} },
-		Run:      runC17,
+		MinStats: func(string) map[string]int64 {
+			return map[string]int64{"barcodes_checked": 1000, "adversarial_lists": 50}
+		},
+		Run: runC17,
 	})
 }
 
